@@ -258,3 +258,135 @@ Proof.
   - exfalso. exact (lookup_segment_nopanic _ _ L).
 Qed.
 
+
+(* ------------------------------------------------------------------ accessors *)
+Definition wf_struct (m : segs) (p : Ptr) : Prop :=
+  wf_ptr m p /\ (p_valid p = true -> p_kind p = KStruct).
+Definition wf_list (m : segs) (p : Ptr) : Prop :=
+  wf_ptr m p /\ (p_valid p = true -> p_kind p = KList).
+
+Lemma wf_struct_as_struct m p : wf_ptr m p -> wf_struct m (as_struct p).
+Proof.
+  intros H. unfold wf_struct, as_struct, is_struct.
+  destruct (p_valid p) eqn:V; cbn [andb]; [|split; [apply wf_null|discriminate]].
+  destruct (p_kind p) eqn:K; try (split; [apply wf_null|discriminate]).
+  split; [assumption|]. intros _. assumption.
+Qed.
+Lemma wf_list_as_list m p : wf_ptr m p -> wf_list m (as_list p).
+Proof.
+  intros H. unfold wf_list, as_list, is_list.
+  destruct (p_valid p) eqn:V; cbn [andb]; [|split; [apply wf_null|discriminate]].
+  destruct (p_kind p) eqn:K; try (split; [apply wf_null|discriminate]).
+  split; [assumption|]. intros _. assumption.
+Qed.
+
+Lemma wf_struct_inv m p : wf_struct m p -> p_valid p = true ->
+  0 <= p_seg p < zlen m /\ wf_size (p_size p) /\ 0 <= p_off p /\
+  p_off p + DataSize (p_size p) + 8 * PointerCount (p_size p) <= zlen (seg_of m p).
+Proof.
+  intros [Hw Hk] V. specialize (Hw V). specialize (Hk V). destruct Hw as [Hs Ho].
+  unfold wf_obj in Ho. rewrite Hk in Ho. tauto.
+Qed.
+
+Lemma seg_of_ok m p : msg_ok m -> seg_ok (seg_of m p).
+Proof. intros. unfold seg_of. apply msg_ok_nth. assumption. Qed.
+Lemma seg_of_is_seg m p : 0 <= p_seg p < zlen m -> is_seg m (p_seg p) (seg_of m p).
+Proof. intros. split; [assumption|reflexivity]. Qed.
+
+Lemma pointerAddress_spec m p i : msg_ok m -> wf_struct m p -> p_valid p = true ->
+  0 <= i < PointerCount (p_size p) ->
+  pointerAddress p i = p_off p + DataSize (p_size p) + 8 * i.
+Proof.
+  intros Hm Hw V Hi. destruct (wf_struct_inv m p Hw V) as (Hs & Hz & Ho & He).
+  destruct (seg_of_ok m p Hm) as [Hl _]. unfold wf_size in Hz.
+  unfold pointerAddress.
+  destruct (addSize (p_off p) (DataSize (p_size p))) as [ps|] eqn:Ea.
+  - apply addSize_spec in Ea. destruct Ea as [-> _].
+    destruct (element _ i 8) as [a|] eqn:Ee.
+    + apply element_spec in Ee. lia.
+    + apply element_none in Ee. lia.
+  - apply addSize_none in Ea. lia.
+Qed.
+
+(* Struct.Ptr(i), i : uint16 *)
+Lemma struct_ptr_safe c m rl p i : msg_ok m -> wf_struct m p -> 0 <= i ->
+  res_sat (fst (struct_ptr c m rl p i)) (fun q => cfg_strict c = true -> wf_ptr m q).
+Proof.
+  intros Hm Hw Hi. unfold struct_ptr.
+  destruct (p_valid p) eqn:V; cbn [negb orb]; [|cbn; intros _; apply wf_null].
+  destruct (i >=? PointerCount (p_size p)) eqn:Ei; [cbn; intros _; apply wf_null|].
+  destruct (wf_struct_inv m p Hw V) as (Hs & Hz & Ho & He). unfold wf_size in Hz.
+  rewrite (pointerAddress_spec m p i Hm Hw V) by lia.
+  apply readPtr_safe; try assumption; try lia. apply seg_of_is_seg. assumption.
+Qed.
+
+Lemma struct_hasptr_safe m p i : msg_ok m -> wf_struct m p -> 0 <= i ->
+  struct_hasptr m p i <> Panic.
+Proof.
+  intros Hm Hw Hi. unfold struct_hasptr.
+  destruct (p_valid p) eqn:V; cbn [negb orb]; [|discriminate].
+  destruct (i >=? PointerCount (p_size p)) eqn:Ei; [discriminate|].
+  destruct (wf_struct_inv m p Hw V) as (Hs & Hz & Ho & He). unfold wf_size in Hz.
+  rewrite (pointerAddress_spec m p i Hm Hw V) by lia.
+  destruct (readRawPointer_ok (seg_of m p) (p_off p + DataSize (p_size p) + 8 * i) (seg_of_ok m p Hm)
+              ltac:(lia) ltac:(lia)) as [w [E _]].
+  rewrite E. discriminate.
+Qed.
+
+(* Struct.UintN(off): the little-endian value of n bytes of the data section, 0 outside it.
+   off : DataOffset is documented to be < 2^19. *)
+Lemma struct_uint_spec m p off n : msg_ok m -> wf_struct m p -> p_valid p = true ->
+  0 <= off < 524288 -> 0 <= n <= 8 ->
+  struct_uint m p off n =
+  Ok (if off + n <=? DataSize (p_size p) then le_decode (sub (seg_of m p) (p_off p + off) n) else 0).
+Proof.
+  intros Hm Hw V Ho Hn. destruct (wf_struct_inv m p Hw V) as (Hs & Hz & Hoff & He). unfold wf_size in Hz.
+  destruct (seg_of_ok m p Hm) as [Hl Hb]. unfold maxSegmentSize in Hl.
+  unfold struct_uint, dataAddress. rewrite V. cbn [negb orb].
+  rewrite (u32_id (off + n)) by lia.
+  destruct (off + n >? DataSize (p_size p)) eqn:E; cbn [bind].
+  - destruct (off + n <=? DataSize (p_size p)) eqn:E2; [lia|reflexivity].
+  - destruct (off + n <=? DataSize (p_size p)) eqn:E2; [|lia].
+    destruct (addOffset (p_off p) off) as [a|] eqn:Ea; [|apply addOffset_none in Ea; lia].
+    apply addOffset_spec in Ea. destruct Ea as [_ ->]. rewrite u32_id by lia. cbn [bind].
+    apply readUintN_ok; try lia. split; assumption.
+Qed.
+
+Lemma struct_uint_safe m p off n : msg_ok m -> wf_struct m p ->
+  0 <= off < 524288 -> 0 <= n <= 8 -> struct_uint m p off n <> Panic.
+Proof.
+  intros Hm Hw Ho Hn. destruct (p_valid p) eqn:V.
+  - rewrite (struct_uint_spec m p off n) by assumption. discriminate.
+  - unfold struct_uint, dataAddress. rewrite V. cbn. discriminate.
+Qed.
+
+(* exactly when the documented programmer-error panic of a data accessor fires *)
+Lemma dataAddress_panic_iff p off sz :
+  dataAddress p off sz = Panic <->
+  (p_valid p = true /\ u32 (off + sz) <= DataSize (p_size p) /\ off >= 524288).
+Proof.
+  unfold dataAddress. destruct (p_valid p); cbn [negb orb].
+  - destruct (_ >? _) eqn:E.
+    + split; [discriminate|lia].
+    + destruct (addOffset (p_off p) off) eqn:Ea.
+      * apply addOffset_spec in Ea. split; [discriminate|lia].
+      * apply addOffset_none in Ea. split; [intros _; repeat split; lia|reflexivity].
+  - split; [discriminate|]. intros [H _]. discriminate.
+Qed.
+
+(* Struct.Bit(n): no panic for ANY bit offset n >= 0 (a struct's data section has fewer
+   than 2^22 bits, so the byte offset of an in-range bit is below 2^19) *)
+Lemma struct_bit_safe m p n : msg_ok m -> wf_struct m p -> 0 <= n -> struct_bit m p n <> Panic.
+Proof.
+  intros Hm Hw Hn. unfold struct_bit.
+  destruct (p_valid p) eqn:V; cbn [andb negb]; [|discriminate].
+  destruct (wf_struct_inv m p Hw V) as (Hs & Hz & Hoff & He). unfold wf_size in Hz.
+  destruct (seg_of_ok m p Hm) as [Hl Hb]. unfold maxSegmentSize in Hl.
+  rewrite (u32_id (DataSize (p_size p) * 8)) by lia.
+  destruct (n <? DataSize (p_size p) * 8) eqn:E; cbn [negb]; [|discriminate].
+  unfold bitOffset_offset.
+  destruct (addOffset (p_off p) (n / 8)) as [a|] eqn:Ea; [|apply addOffset_none in Ea; lia].
+  apply addOffset_spec in Ea. destruct Ea as [_ ->]. rewrite u32_id by lia.
+  destruct (readUintN_ok (seg_of m p) (p_off p + n / 8) 1 (conj Hl Hb) ltac:(lia) ltac:(lia) ltac:(lia)) as [E1 _].
+  rewrite E1. discriminate.
+Qed.
